@@ -12,6 +12,14 @@ CLAIMED = {
          'On every accepting path of validate(x) the same path continues with validate(v): the solver must show v is accepted again, returned unchanged and has no leading/trailing Unicode whitespace, for all inputs following that path. Bounded as C01.', '5 C02'),
  'C06': ('paired symbolic runs of the real checksum/calc_check_digit/validate with cut points and solver-proven injectivity lemmas; z3',
          'For Luhn (several alphabets), Verhoeff, Damm and the five ISO 7064 modules: for all payloads of each explored length the solver shows append-validity, uniqueness of the check character, detection of every same-kind single substitution and (where promised) every adjacent transposition, and that Luhn misses exactly the first/last-symbol swap. Bounded lengths; the unbounded claim of the property is not made.', '5 C06'),
+ 'C03': ('symbolic execution of the real compact()/validate() on the pair (x, compact(x)) for a fully symbolic x + z3 obligation "same outcome"; transitivity argument for arbitrary pairs',
+         'For every module with compact() (minus the formats the property excludes) and every path of compact(x), validate(x), validate(compact(x)) over a fully symbolic x: the solver must show that, whenever compact is idempotent on the path, both validations are rejected or both return the same value. Since every input is related to its own compact form, this covers all pairs with equal compact forms. Bounded lengths / K / caps.', '5 C03'),
+ 'C04': ('symbolic execution of the real validate()/format() chain on a symbolic input + z3 equalities',
+         'On every accepting path of validate(x): format(x) must return, validate(format(x)) must return the same canonical number (up to the four documented normalisations) and format(validate(x)) must equal format(x), for the default and the documented format options. Bounded lengths / K / caps.', '5 C04'),
+ 'C08': ('symbolic execution of the real conversion functions and target validators on a symbolic source number + z3 obligations (target-valid, inverse / embedding)',
+         'For each of the ~30 listed conversions: on every accepting path of the source validate(x) for a raw symbolic x, the converted value must validate in the target format and convert back to / embed the source identity; ValidationError refusals are allowed, other exceptions are not. Bounded lengths / K / caps.', '5 C08'),
+ 'C12': ('symbolic execution of every attribute getter on accepting paths of validate() with a symbolic system date + z3 obligations',
+         'On every accepting path of validate(x): each getter (get_*, info, split, *_type) returns or raises a ValidationError; birth dates are constructed through a date model that raises exactly like datetime.date, agree with get_birth_year/month and (for 11 fixed-layout formats) with the digits; gender is M/F/None; split() parts concatenate to the canonical number. Bounded lengths / K / caps.', '5 C12'),
  'C14': ('symbolic execution of the real clean() over all code points / symbolic strings x symbolic deletechars + z3; module level: symbolic look-alike at a symbolic position',
          'One symbolic character over all 1,114,112 code points decides the per-character clauses against the interpreter\'s unicodedata tables (all violating code points are enumerated); symbolic strings and deletechars decide order/count, absence of deleted characters and idempotence; per module, doctest-valid presentations and symbolic ASCII inputs with one symbolic look-alike at a symbolic position must validate like the ASCII spelling.', '5 C14'),
  'C17': ('paired symbolic runs of the real validate() on a symbolic valid number and its single-character substitution / adjacent transposition, with cut points and solver-proven injectivity lemmas; z3',
